@@ -282,6 +282,17 @@ fn answer<M: MemoizerKind>(
         }
         a
     });
+    // C08 ("however the arguments were inserted"): the same pair sequence through `collect()` must give the same
+    // argument set as the sequence of `set` calls (later pairs win)
+    if let Some(ps) = &rq.args {
+        let collected: FluentArgs = ps.iter().map(|(k, t)| (k.as_str(), tok_value(t))).collect();
+        let show = |a: &FluentArgs| -> Vec<String> { a.iter().map(|(k, v)| format!("{}={}", k, canon_value(v))).collect() };
+        if let Some(a) = &args {
+            if show(a) != show(&collected) {
+                return format!("T - [] W - [] ARGS-COLLECT-DISAGREE(set={:?} collect={:?})", show(a), show(&collected));
+            }
+        }
+    }
     // C08: the three stringification paths of a value (`write`, `as_string`, `into_string`) agree, with and
     // without a formatter; `FluentValue` equality is reflexive on strings, numbers and custom values
     let mut stringify = String::new();
